@@ -24,7 +24,9 @@ CONTROLS = {
                          ("CancelOnShutdown.mc.cfg", {"AsShipped_D2": "TRUE"}, "NoABBA")],
     "FutureImpl": [("FutureImpl.mc.cfg", {"Bug": '"append_when_done"'}, "NoCallbackLeft"),
                    ("FutureImpl.mc.cfg", {"Bug": '"keep_callbacks"'}, "NoCallbackLeft"),
-                   ("FutureImpl.mc.cfg", {"Bug": '"true_when_done"'}, "ContractHolds")],
+                   ("FutureImpl.mc.cfg", {"Bug": '"true_when_done"'}, "ContractHolds"),
+                   ("FutureImpl.mc.cfg", {"Bug": '"no_notify_on_xcancel"'}, "ContractHolds"),
+                   ("FutureImpl.mc.cfg", {"Bug": '"stop_at_raising_callback"'}, "ContractHolds")],
     "MapFuture": [("MapFuture.mc.cfg", {"Bug": '"swallow_efn_exc"'}, "ContractHolds"),
                   ("MapFuture.mc.cfg", {"AsShipped_D12": "TRUE"}, "ContractHolds")],
     "Metrics": [("Metrics.mc.cfg", {"Bug": '"no_dec_on_finalize"'}, "QuiescentGaugesMatch"),
